@@ -43,7 +43,6 @@ type Case struct {
 	V7     bool   `json:"v7"`
 	Steps  []Step `json:"steps"`
 	Shared int    `json:"shared"` // goroutines of shared traffic
-	Fn     bool   `json:"fn"`     // use Dedicated(fn) instead of Dedicate() for the first session
 }
 
 func genCase(r *gen.Rand, i int) any {
@@ -377,9 +376,17 @@ func run(ci any) (res obs.Result) {
 	// ---- oracle ----
 	sessConn := map[string]int{}
 	hookInval := map[int]bool{}
+	// the hook set installed when the session is released decides (a later SetPubSubHooks replaces the earlier one;
+	// calls after the release are rejected)
+	goneAt := map[int]bool{}
 	for _, st := range c.Steps {
-		if st.T == "hooks" && !st.Zero && st.Inval {
-			hookInval[st.D] = true
+		switch st.T {
+		case "hooks":
+			if !goneAt[st.D] {
+				hookInval[st.D] = !st.Zero && st.Inval
+			}
+		case "rel", "close":
+			goneAt[st.D] = true
 		}
 	}
 	for _, v := range views {
